@@ -7,7 +7,7 @@ import itertools
 
 from mc.build import ti as B
 from mc.core import explorer
-from mc.core.util import call, diff
+from mc.core.util import call, diff, exc_name
 
 ID = "C04"
 LEVEL = "model_checking"
@@ -43,13 +43,13 @@ def oracle(spec, obj):
     try:
         text = B.dumps(obj)
     except (ValueError, TypeError) as exc:
-        return "refused", ["dumps: %s" % type(exc).__name__]
+        return "refused", ["dumps: %s" % exc_name(exc)]
     want = B.expected_observation(spec)
     back = pt.TreeInfo()
     try:
         back.loads(text)
     except Exception as exc:                                            # noqa
-        return "bad", ["the written .treeinfo cannot be read back: %s: %s" % (type(exc).__name__, str(exc)[:160])]
+        return "bad", ["the written .treeinfo cannot be read back: %s: %s" % (exc_name(exc), str(exc)[:160])]
     d = diff(B.observe(back), want)
     if d:
         problems.append("re-read tree differs from what was written (observed != expected): " + "; ".join(d))
@@ -57,7 +57,7 @@ def oracle(spec, obj):
         if B.dumps(back) != text:
             problems.append("second write is not byte-identical")
     except Exception as exc:                                            # noqa
-        problems.append("re-read tree cannot be written: %s" % type(exc).__name__)
+        problems.append("re-read tree cannot be written: %s" % exc_name(exc))
     return ("bad" if problems else "ok"), problems
 
 
@@ -75,15 +75,15 @@ def eval_case(case):
             except (ValueError, TypeError):
                 raise
             except Exception as exc:                                    # noqa
-                return {"status": "bad", "problems": ["the parent's written file cannot be read back: %s" % type(exc).__name__]}
+                return {"status": "bad", "problems": ["the parent's written file cannot be read back: %s" % exc_name(exc)]}
             B.apply_obj(obj, case["edits"][-1])
     except (ValueError, TypeError) as exc:
-        return {"status": "refused", "problems": ["build: %s" % type(exc).__name__]}
+        return {"status": "refused", "problems": ["build: %s" % exc_name(exc)]}
     except (KeyError, IndexError, AttributeError) as exc:
         if case["mode"] == "scratch":
             raise
         return {"status": "bad", "problems": ["the re-read parent object does not hold what was written to it, the next "
-                                              "edit cannot be applied: %s" % type(exc).__name__]}
+                                              "edit cannot be applied: %s" % exc_name(exc)]}
     status, problems = oracle(spec, obj)
     return {"status": status, "problems": problems}
 
